@@ -1,0 +1,7 @@
+//go:build verif
+
+package gcs
+
+// VerifFastReduction exposes the 128-bit multiply-and-shift reduction to the
+// runtime-monitoring harness.  It is compiled only with -tags verif.
+func VerifFastReduction(v, nHi, nLo uint64) uint64 { return fastReduction(v, nHi, nLo) }
